@@ -126,10 +126,10 @@ func errorHandled(f *ssa.Function, errVal ssa.Value) (bool, string) {
 			propagated = true
 		case *ssa.Call:
 			// errors.Is(err, X) / db.IsErrNotFound(err): a classification; the other uses decide
-			if sc := t.Call.StaticCallee(); sc != nil && (sc.Name() == "Is" || sc.Name() == "As" || strings.HasPrefix(sc.Name(), "IsErr")) {
+			if sc := t.Call.StaticCallee(); sc != nil && (engine.ShortName(sc) == "Is" || engine.ShortName(sc) == "As" || strings.HasPrefix(engine.ShortName(sc), "IsErr")) {
 				continue
 			}
-			if sc := t.Call.StaticCallee(); sc != nil && sc.Name() == "Errorf" {
+			if sc := t.Call.StaticCallee(); sc != nil && engine.ShortName(sc) == "Errorf" {
 				propagated = true
 			}
 		case *ssa.MakeInterface, *ssa.Phi:
@@ -225,7 +225,7 @@ func (c *Ctx) flagCase(rule string) {
 	for _, f := range c.productFuncs() {
 		for _, cs := range engine.Calls(f) {
 			sc := cs.Common().StaticCallee()
-			if sc == nil || !isFlagSetMethod(sc) || (sc.Name() != "ContainsUnchecked" && sc.Name() != "ContainsAnyUnchecked") {
+			if sc == nil || !isFlagSetMethod(sc) || (engine.ShortName(sc) != "ContainsUnchecked" && engine.ShortName(sc) != "ContainsAnyUnchecked") {
 				continue
 			}
 			if topFn(f).Pkg != nil && engine.RelPkg(topFn(f).Pkg.Pkg.Path()) == "imap" && isFlagSetMethod(topFn(f)) {
@@ -247,7 +247,7 @@ func (c *Ctx) flagCase(rule string) {
 					}
 				}
 			}
-			R.Check(okAll, rule, c.name(f)+"|"+sc.Name(), P.Pos(cs.Pos()), "unchecked lookup uses a lower-case key", "FlagSet."+sc.Name()+" is called with "+bad+", which is not a lower-case constant nor a strings.ToLower result: a flag written in another letter case is not found")
+			R.Check(okAll, rule, c.name(f)+"|"+engine.ShortName(sc), P.Pos(cs.Pos()), "unchecked lookup uses a lower-case key", "FlagSet."+engine.ShortName(sc)+" is called with "+bad+", which is not a lower-case constant nor a strings.ToLower result: a flag written in another letter case is not found")
 		}
 	}
 	R.Min(rule, "ContainsUnchecked call sites", n, 20)
@@ -262,7 +262,7 @@ func (c *Ctx) flagCase(rule string) {
 		var work []ssa.Value
 		for _, cs := range engine.Calls(f) {
 			sc := cs.Common().StaticCallee()
-			if sc != nil && isFlagSetMethod(sc) && (sc.Name() == "ToSlice" || sc.Name() == "ToSliceUnsorted") {
+			if sc != nil && isFlagSetMethod(sc) && (engine.ShortName(sc) == "ToSlice" || engine.ShortName(sc) == "ToSliceUnsorted") {
 				if v, ok := cs.Instr.(ssa.Value); ok {
 					tainted[v] = true
 					work = append(work, v)
@@ -391,7 +391,7 @@ func lowerCased(v ssa.Value) bool {
 				}
 			}
 		case *ssa.Call:
-			if sc := t.Call.StaticCallee(); sc != nil && sc.Name() == "ToLower" {
+			if sc := t.Call.StaticCallee(); sc != nil && engine.ShortName(sc) == "ToLower" {
 				return
 			}
 			ok = false
@@ -448,7 +448,7 @@ func classifiedEdge(f *ssa.Function, errVal ssa.Value, blk *ssa.BasicBlock) bool
 			continue
 		}
 		sc := call.Call.StaticCallee()
-		if sc == nil || !(sc.Name() == "Is" || sc.Name() == "As" || strings.HasPrefix(sc.Name(), "IsErr")) {
+		if sc == nil || !(engine.ShortName(sc) == "Is" || engine.ShortName(sc) == "As" || strings.HasPrefix(engine.ShortName(sc), "IsErr")) {
 			continue
 		}
 		uses := false
@@ -481,7 +481,7 @@ func c03writeBeforeAnnounce(c *Ctx) {
 			if sc == nil {
 				continue
 			}
-			writes, isCtor := want[sc.Name()]
+			writes, isCtor := want[engine.ShortName(sc)]
 			if !isCtor {
 				continue
 			}
@@ -498,8 +498,8 @@ func c03writeBeforeAnnounce(c *Ctx) {
 					}
 				}
 			}
-			R.Check(ok, "R03.5", c.name(f)+"|"+sc.Name(), P.Pos(cs.Pos()), "the flag change is written to the index before it is announced",
-				"the state update "+sc.Name()+" is built on a path where none of "+strings.Join(writes, "/")+" was executed: sessions are told about a flag change that the index never received (a new session sees the old flags)")
+			R.Check(ok, "R03.5", c.name(f)+"|"+engine.ShortName(sc), P.Pos(cs.Pos()), "the flag change is written to the index before it is announced",
+				"the state update "+engine.ShortName(sc)+" is built on a path where none of "+strings.Join(writes, "/")+" was executed: sessions are told about a flag change that the index never received (a new session sees the old flags)")
 		}
 	}
 	R.Min("R03.5", "flag-change state update constructions", n, 5)
@@ -534,7 +534,7 @@ func c03deletedPerMailbox(c *Ctx) {
 		isCurrent := func(v ssa.Value) bool {
 			return engine.AnyBackward(v, engine.FlowOpts{Loads: true}, func(x ssa.Value) bool {
 				if ex, ok := x.(*ssa.Extract); ok {
-					if call, ok := ex.Tuple.(*ssa.Call); ok && call.Call.StaticCallee() != nil && call.Call.StaticCallee().Name() == "getMessageFlags" {
+					if call, ok := ex.Tuple.(*ssa.Call); ok && call.Call.StaticCallee() != nil && engine.ShortName(call.Call.StaticCallee()) == "getMessageFlags" {
 						return true
 					}
 				}
@@ -548,7 +548,7 @@ func c03deletedPerMailbox(c *Ctx) {
 						arg := engine.ArgForParam(cs.Common(), f, pi)
 						okc := arg != nil && engine.AnyBackward(arg, engine.FlowOpts{Loads: true}, func(y ssa.Value) bool {
 							if ex, ok := y.(*ssa.Extract); ok {
-								if call, ok := ex.Tuple.(*ssa.Call); ok && call.Call.StaticCallee() != nil && call.Call.StaticCallee().Name() == "getMessageFlags" {
+								if call, ok := ex.Tuple.(*ssa.Call); ok && call.Call.StaticCallee() != nil && engine.ShortName(call.Call.StaticCallee()) == "getMessageFlags" {
 									return true
 								}
 							}
@@ -570,7 +570,7 @@ func c03deletedPerMailbox(c *Ctx) {
 			if sc == nil {
 				continue
 			}
-			switch sc.Name() {
+			switch engine.ShortName(sc) {
 			case "setMessageFlags":
 				sinks = append(sinks, cs.Instr)
 			case "SetOnSelf":
@@ -580,7 +580,7 @@ func c03deletedPerMailbox(c *Ctx) {
 				}
 				flag, isConst := engine.ConstString(args[1])
 				cur, isCall := args[2].(*ssa.Call)
-				if !isConst || !strings.EqualFold(flag, `\Deleted`) || !isCall || cur.Call.StaticCallee() == nil || !strings.HasPrefix(cur.Call.StaticCallee().Name(), "Contains") {
+				if !isConst || !strings.EqualFold(flag, `\Deleted`) || !isCall || cur.Call.StaticCallee() == nil || !strings.HasPrefix(engine.ShortName(cur.Call.StaticCallee()), "Contains") {
 					continue
 				}
 				q, _ := engine.ConstString(cur.Call.Args[len(cur.Call.Args)-1])
